@@ -155,7 +155,7 @@ func floatPromRateMerge(isRate, isCounter bool) FloatSliceMergeFunc {
 
 		resultValue := reduceResult * (extrapolateToInterval / sampledInterval)
 		if isRate {
-			resultValue = resultValue / float64(param.rangeDuration/1e9)
+			resultValue = resultValue / (float64(param.rangeDuration) / 1e9)
 		}
 		return resultValue, false
 	}
